@@ -813,7 +813,16 @@ class Builder:
             if one:
                 cs = self._some_set(args[0], env, p)
                 if cs is not None:
-                    return N("set", e, cs=cs, min=1, max=1, one=True, vmap=args[0], vmod=tuple(env["__module"]))
+                    node = N("set", e, cs=cs, min=1, max=1, one=True, vmap=args[0], vmod=tuple(env["__module"]))
+                    table = self._unit_values(args[0], env, cs)
+                    if table is not None:
+                        # every accepted character yields a constant: the same as alt((c1.value(V1), c2.value(V2), ..))
+                        return N("alt", e, alts=[N("value", e, p=N("lit", e, s=c_), v=v_) for c_, v_ in table], from_verify_map=node)
+                    return node
+            if p["t"] == "any":
+                ts = self._some_tokens(args[0], env)
+                if ts is not None:
+                    return N("tokset", e, toks=ts, neg=False, vmap=args[0], vmod=tuple(env["__module"]))
             return N("verify", e, p=p, f=args[0], vmap=True)
         if m == "and_then" and len(args) == 1:
             return N("andthen", e, outer=self.pe(recv, env), inner=self.pe(args[0], env))
@@ -826,6 +835,58 @@ class Builder:
         if m == "by_ref" and not args:
             return self.pe(recv, env)
         return N("opaque", e, src=src(e), why="unmodelled method ." + m)
+
+    def _unit_values(self, f, env, cs):
+        """[(char, path expression of the constant)] when the function maps every accepted character to a field-less enum
+        variant (in source order of the characters' first mention), else None."""
+        from . import probe as P
+
+        if cs[0] != "in" or not (0 < len(cs[1]) <= 16):
+            return None
+        pr = P.Probe(self.facts, None, tuple(env["__module"]))
+        order = []
+        for n_ in F.find_all(f, lambda n_: n_.get("k") == "lit" and n_.get("t") in ("char", "str")):
+            for ch in n_["v"]:
+                if ch in cs[1] and ch not in order:
+                    order.append(ch)
+        order += [ch for ch in sorted(cs[1]) if ch not in order]
+        out = []
+        try:
+            fv = pr.ev(f, {})
+            for ch in order:
+                r = pr.apply(fv, [ch])
+                if not (isinstance(r, tuple) and r and r[0] == "some" and isinstance(r[1], tuple) and r[1][0] == "enum" and not r[1][2]):
+                    return None
+                en, var = r[1][1].split("::")[-2:] if "::" in r[1][1] else (None, None)
+                if en is None or en not in self.facts.enums or var not in self.facts.variants(en) or self.facts.variant_fields(en, var):
+                    return None
+                out.append((ch, {"k": "path", "l": f.get("l"), "segs": [en, var], "gen": [[], []], "qself": None, "global": False}))
+        except (P.NoEval, P.Panic, KeyError):
+            return None
+        return out
+
+    def _some_tokens(self, f, env):
+        """Token variants on which a Token -> Option<_> function yields Some (payloads unknown), or None."""
+        from . import probe as P
+
+        if "Token" not in self.facts.enums:
+            return None
+        pr = P.Probe(self.facts, None, tuple(env["__module"]))
+        out = []
+        try:
+            fv = pr.ev(f, {})
+            for v in self.facts.variants("Token"):
+                tok = ("enum", "Token::%s" % v, [P.Opq("payload") for _ in self.facts.variant_fields("Token", v)])
+                r = pr.apply(fv, [tok])
+                if r is None:
+                    continue
+                if isinstance(r, tuple) and r and r[0] == "some":
+                    out.append(v)
+                else:
+                    return None
+        except (P.NoEval, P.Panic, KeyError):
+            return None
+        return out
 
     def _some_set(self, f, env, p):
         """The characters on which a char -> Option<_> function yields Some.  The function is evaluated (vlib/probe.py) on
